@@ -916,7 +916,7 @@ def _execute(plan, ctx, fs, wl, seqmod, permmod, Sequence, SequenceException, cl
             rel.kappa()
         elif pre["how"] == "machine":
             os.makedirs(OUTDIR + "_prelude", exist_ok=True)
-            wl.WangLandauMachine(rel, OUTDIR + "_prelude", set(), nbins=2, binmin=0.0, binmax=1.0, flatchk=5, flatcrit=0.5, convergence=math.exp(2.0)).run()
+            wl.WangLandauMachine(rel, OUTDIR + "_prelude", set(), 2, 0.0, 1.0, 5, 0.5, math.exp(2.0)).run()
         else:
             rel.deltaMax(True)
         ctx.log.emit("prelude", seq=pre["seq"], how=pre["how"])
@@ -942,8 +942,8 @@ def _execute(plan, ctx, fs, wl, seqmod, permmod, Sequence, SequenceException, cl
             ctx.probe("restart_into_dirty_dir")
             if first_failed:
                 ctx.probe("restart_after_crash")
-        kw = dict(nbins=b - a, binmin=a / float(M), binmax=b / float(M), flatchk=cfg["flatchk"], flatcrit=cfg["flatcrit"],
-                  convergence=conv_of(cfg))
+        # positional, in the documented order (keyword spellings are not part of the statement)
+        wl_args = (b - a, a / float(M), b / float(M), cfg["flatchk"], cfg["flatcrit"], conv_of(cfg))
         outcome, ret, err = "returned", None, None
         try:
             if run_no == 1 and plan.get("restart") == "same_machine" and machine_box[0] is not None:
@@ -954,7 +954,12 @@ def _execute(plan, ctx, fs, wl, seqmod, permmod, Sequence, SequenceException, cl
                 P = permmod.SequencePermutants(plan["seq"])
                 P.initializeWangLandauParameters(OUTDIR, set(plan.get("frozen", [])), b - a, a / float(M), b / float(M),
                                                  cfg["flatchk"], cfg["flatcrit"], conv_of(cfg))
-                machine = P.WLM
+                machine = getattr(P, "WLM", None)
+                if machine is None:
+                    found = [v for v in vars(P).values() if isinstance(v, wl.WangLandauMachine)]
+                    if not found:
+                        raise Discard("SequencePermutants does not expose the machine it built")
+                    machine = found[0]
                 machine_box[0] = machine
             else:
                 seq_in = plan["seq"]
@@ -963,7 +968,7 @@ def _execute(plan, ctx, fs, wl, seqmod, permmod, Sequence, SequenceException, cl
                     if plan["input"] == "object_warm":
                         seq_in.kappa()
                         ctx.probe("warm_sequence_object")
-                machine = wl.WangLandauMachine(seq_in, OUTDIR, set(plan.get("frozen", [])), **kw)
+                machine = wl.WangLandauMachine(seq_in, OUTDIR, set(plan.get("frozen", [])), *wl_args)
             machine_box[0] = machine
             cur["armed"] = True
             try:
